@@ -159,7 +159,9 @@ func (r *rendered) render(t *TypeTerm) string {
 		}
 		return t.N
 	case "leaf":
-		if strings.HasPrefix(t.N, "ext2.") {
+		if strings.HasPrefix(t.N, "time.") {
+			r.imports["time"] = "time"
+		} else if strings.HasPrefix(t.N, "ext2.") {
 			r.imports["ext2"] = "m/other/ext"
 		} else if strings.HasPrefix(t.N, "ext.") {
 			r.imports["ext"] = "m/ext"
@@ -410,7 +412,7 @@ func subTerms(t *TypeTerm) []*TypeTerm {
 	if (t.K == "leaf" || t.K == "basic") && t.N != "int" {
 		add(&TypeTerm{K: "basic", N: "int"})
 	}
-	if t.K == "leaf" && t.N != "SL" && t.N != "MyInt" && t.N != "MyString" {
+	if t.K == "leaf" && t.N != "SL" && t.N != "MyInt" && t.N != "MyString" && t.N != "time.Duration" {
 		add(&TypeTerm{K: "leaf", N: "SL"}) // the plainest struct leaf
 	}
 	if t.K == "leaf" || (t.K != "basic" && t.Size() > 2) {
